@@ -717,4 +717,15 @@ def rule_transport_close_contained(ctx):
 
 
 
-RULES = [('C17.a', rule_a), ('C17.b', rule_b), ('C17.c', rule_c), ('C17.d', rule_d), ('C17.e', rule_e), ('C17.f', rule_f), ('C17.b+C11.a+C11.g', rule_plumbing), ('C17.g', rule_g), ('C14.e', rule_lease_per_connection), ('C17.h', rule_stop_tasks_reentrant), ('C17.i', rule_provider_iterated_once), ('C17.j', rule_transport_close_contained)]
+
+def rule_dead_requesters_stay_dead(ctx):
+    """(shared C08.l)  After a reconnect the ids start again from 1: a requester of the old connection that was failed by
+    the close sequence must be inert from then on - a later request()/cancel() on its subscription would otherwise be
+    written with the old id on the new connection and hit the fresh request that holds it now.  The requester notes the
+    end of its stream before it tells the subscriber (whose on_error may raise) (rules/c08.py)."""
+    from .c08 import rule_ended_stream_is_silent
+    rule_ended_stream_is_silent(ctx)
+
+
+
+RULES = [('C17.a', rule_a), ('C17.b', rule_b), ('C17.c', rule_c), ('C17.d', rule_d), ('C17.e', rule_e), ('C17.f', rule_f), ('C17.b+C11.a+C11.g', rule_plumbing), ('C17.g', rule_g), ('C14.e', rule_lease_per_connection), ('C17.h', rule_stop_tasks_reentrant), ('C17.i', rule_provider_iterated_once), ('C17.j', rule_transport_close_contained), ('C08.l', rule_dead_requesters_stay_dead)]
